@@ -269,6 +269,20 @@ class Smsc:
                 self.later(0, conn.feed, pdu(0x80000006, 0, seq))
 
 
+_LOG_LEVELS = ('TRACE', 'CRITICAL', 'INFO', 'DEBUG', 'TRACE', 'WARNING')
+_log_turn = [0]
+
+
+def next_log_level():
+    """deterministic rotation (a check run creates its simulators in a fixed order); VERIF_LOG_LEVEL pins it"""
+    import os
+    pinned = os.environ.get('VERIF_LOG_LEVEL')
+    if pinned:
+        return pinned
+    _log_turn[0] += 1
+    return _LOG_LEVELS[_log_turn[0] % len(_LOG_LEVELS)]
+
+
 class Hook:
     """recording hook; `delays` maps (kind, call index of that kind) to a sleep before returning"""
 
@@ -326,18 +340,29 @@ class Sim:
         sim = self
 
         h = Hook(self)
+        # the properties hold at every log level: the level rotates from one simulated session to the next (records go
+        # nowhere), and the application's hook is a subclass of the library's SimpleHook that calls it first, as an
+        # application extending the default hook does - so that log.py and hook.py run as they do in a deployment
+        from aiosmpplib.hook import SimpleHook
+        from aiosmpplib.log import StructuredLogger
+        level = next_log_level()
+        self.log_level = level
 
-        class H(AbstractHook):
+        class H(SimpleHook):
             async def sending(self, smpp_message, pdu, client_id):
+                await SimpleHook.sending(self, smpp_message, pdu, client_id)
                 await h.sending(smpp_message, pdu, client_id)
 
             async def received(self, smpp_message, pdu, client_id):
+                await SimpleHook.received(self, smpp_message, pdu, client_id)
                 await h.received(smpp_message, pdu, client_id)
 
             async def send_error(self, smpp_message, error, client_id):
+                await SimpleHook.send_error(self, smpp_message, error, client_id)
                 await h.send_error(smpp_message, error, client_id)
         self.hook = h
-        kw = dict(log_handler=logging.NullHandler(), log_level='CRITICAL', hook=H(), client_id='sim')
+        kw = dict(log_handler=logging.NullHandler(), log_level=level,
+                  hook=H(StructuredLogger('sim-hook', level, handler=logging.NullHandler())), client_id='sim')
         kw.update(esme_kw)
         self.esme = aiosmpplib.ESME('h', 1, 'sys', 'pw', **kw)
         self.result = None
